@@ -956,6 +956,17 @@ pub fn oracle_tx(line: &str, trace: &str) -> Vec<String> {
     if endpoint_error {
         v.push(format!("c16-link-unusable: the endpoint ended the link/session/connection with an error: {}", events));
     }
+    // a partial delivery never completes, so a receiver that renews its window per delivery stops granting: the
+    // starvation that follows has the partial delivery as its cause
+    if wire.iter().any(|w| w.status == "p") {
+        for x in v.iter_mut() {
+            if x.starts_with("c16-send-starved") {
+                if let Some((class, rest)) = x.clone().split_once(':') {
+                    *x = format!("{}-after-partial:{}", class, rest);
+                }
+            }
+        }
+    }
     v
 }
 
@@ -1395,7 +1406,7 @@ pub fn direct_oracle(line: &str, trace: &str) -> Vec<String> {
     if field(&ew, "close") == "pending" {
         v.into_iter()
             .map(|x| match x.split_once(':') {
-                Some((c, rest)) => format!("{}-wedged:{} [the engines are wedged: the final detach never reached the wire]", c, rest),
+                Some((c, rest)) => format!("{}-wedged:{} [the engines are wedged: the final detach never reached the wire]", c.trim_end_matches("-after-partial"), rest),
                 None => x,
             })
             .collect()
@@ -1748,3 +1759,218 @@ pub const KNOWN: &[&str] = &[
     // the same leak, tolerated by the lenient reading (credit for every call plus 10): must stay quiet
     "txc tx mfs=512 cb=1 sb=1 pipe=64 ssm=s mms=- cr=up:19 pause=0..30 sd=1 | 768:1 ; 768:1 ; 768:1 ; 768:1 ; 768:1 ; 768:1 ; 768:1 ; 10:inf ; 3072:inf",
 ];
+
+// ------------------------------------------------------------------------------------------
+// txcm: the tx traces against the Coq model Link/SendCancel.v
+// ------------------------------------------------------------------------------------------
+
+/// One `txcm` case from a `txc tx` case and its trace: the calls (message = call number, link-level pieces, whether
+/// the call completed), the credit grants, and - after `#` - the transfers the peer saw. The oracle searches the
+/// model's drop points for one that reproduces the observed transfers.
+pub fn abstract_tx(line: &str, trace: &str) -> Option<(String, String)> {
+    if trace.starts_with("HARNESS-PANIC") || !trace.contains("S:") {
+        return None;
+    }
+    let rest = line.strip_prefix("txc tx ")?;
+    let (hd, _script) = rest.split_once('|')?;
+    let hw: Vec<&str> = hd.split_whitespace().collect();
+    let mms: Option<usize> = field(&hw, "mms").parse().ok();
+    let crs = field(&hw, "cr");
+    let pieces_of = |plen: usize| -> usize {
+        match mms {
+            Some(m) if m > 0 && plen > m => (plen + m - 1) / m,
+            _ => 1,
+        }
+    };
+    // calls
+    let mut calls: Vec<(u32, usize, bool, Vec<u8>)> = Vec::new();
+    for s in section(trace, "S:").split(';').map(|s| s.trim()).filter(|s| !s.is_empty()) {
+        let p: Vec<&str> = s.split(',').collect();
+        if p.len() != 5 {
+            return None;
+        }
+        let (seq, size): (u32, usize) = (p[0].parse().ok()?, p[1].parse().ok()?);
+        if p[3].starts_with("err") {
+            return None; // the link failed: outside the model
+        }
+        let enc = encoded_message(seq, size);
+        calls.push((seq, pieces_of(enc.len()), p[3].starts_with("ok"), enc));
+    }
+    // what the peer saw: deliveries (for the message identity) and frames
+    struct D {
+        tag: String,
+        len: usize,
+        hash: String,
+        complete: bool,
+    }
+    let dels: Vec<D> = section(trace, "W:")
+        .split(';')
+        .map(|s| s.trim())
+        .filter(|s| !s.is_empty())
+        .filter_map(|s| {
+            let p: Vec<&str> = s.split(',').collect();
+            if p.len() < 6 {
+                return None;
+            }
+            Some(D { tag: p[1].to_string(), len: p[3].parse().unwrap_or(0), hash: p[4].to_string(), complete: p[5] == "c" })
+        })
+        .collect();
+    let msg_of_tag = |tag: &str| -> u32 {
+        for d in dels.iter().filter(|d| d.tag == tag) {
+            for (seq, _, _, enc) in &calls {
+                if d.len <= enc.len() && format!("{:016x}", fnv(&enc[..d.len])) == d.hash && (!d.complete || d.len == enc.len()) {
+                    return *seq;
+                }
+            }
+        }
+        999_999
+    };
+    let mut frames: Vec<String> = Vec::new();
+    let mut cur: Option<(String, usize, u32)> = None;
+    let mut completed: Vec<u32> = Vec::new();
+    for f in section(trace, "F:").split(',').map(|s| s.trim()).filter(|s| !s.is_empty()) {
+        let p: Vec<&str> = f.split('.').collect();
+        if p.len() != 7 {
+            return None;
+        }
+        let tag = p[2].trim_start_matches('t');
+        let more = p[3] == "m1";
+        if tag != "-" {
+            cur = Some((tag.to_string(), 0, msg_of_tag(tag)));
+        } else if let Some(c) = cur.as_mut() {
+            c.1 += 1;
+        } else {
+            return None;
+        }
+        let c = cur.clone().unwrap();
+        frames.push(format!("t{}.i{}.m{}.g{}", c.0, c.1, more as u8, c.2));
+        if !more {
+            completed.push(c.2);
+        }
+    }
+    // grants
+    let (first, per_delivery): (u64, bool) = if let Some(n) = crs.strip_prefix("up:") {
+        (n.parse().ok()?, false)
+    } else if let Some(r) = crs.strip_prefix("late:") {
+        (r.split(':').next()?.parse().ok()?, false)
+    } else if let Some(w) = crs.strip_prefix("win:") {
+        (w.parse().ok()?, true)
+    } else {
+        return None;
+    };
+    // how the scripted peer counts an unfinished delivery in its credit window is its own business: not modelled
+    if per_delivery && dels.iter().any(|d| !d.complete) {
+        return None;
+    }
+    let mut evs: Vec<String> = vec![format!("G{}", first)];
+    for (seq, pieces, ok, _) in &calls {
+        evs.push(format!("C{}:{}:{}", seq, pieces, if *ok { "ok" } else { "x" }));
+        if per_delivery && completed.contains(seq) {
+            evs.push("G1".into());
+        }
+    }
+    let observed = frames.join(",");
+    Some((format!("txcm | {} # {}", evs.join(" ; "), observed), observed))
+}
+
+fn gen_txm(r: &mut Rng, thorough: bool) -> String {
+    // sizes below the frame size: what the link hands to the session is what the peer sees, one frame per transfer
+    let sizes = [10usize, 100, 300, 500];
+    let n_ops = r.range(2, if thorough { 12 } else { 8 });
+    let mut ops: Vec<String> = Vec::new();
+    for _ in 0..n_ops {
+        let size = *r.pick(&sizes);
+        match r.below(20) {
+            0..=6 => ops.push(format!("{}:inf", size)),
+            7..=15 => ops.push(format!("{}:{}", size, r.range(1, 4))),
+            16..=18 => ops.push(format!("{}:{}", size, r.range(5, 9))),
+            _ => ops.push(format!("g{}", r.range(1, 30))),
+        }
+    }
+    ops.push(format!("{}:inf", *r.pick(&sizes)));
+    let attempts = max_attempts(&parse_ops(&ops.join(" ; ")));
+    let cr = match r.below(8) {
+        0..=3 => format!("up:{}", attempts + r.below(4) as u32),
+        4 => format!("up:{}", 1 + r.below(attempts as u64) as u32),
+        5 => format!("late:{}:{}", attempts + 2, r.range(1, 40)),
+        _ => format!("win:{}", r.range(1, 3)),
+    };
+    let mms = match r.below(4) {
+        0 => "100",
+        1 => "200",
+        _ => "-",
+    };
+    format!(
+        "txc tx mfs=1024 cb={} sb={} pipe={} ssm={} mms={} cr={} pause={} sd={} | {}",
+        pick_cap(r),
+        pick_cap(r),
+        *r.pick(&[64usize, 128, 256, 512]),
+        if r.below(2) == 0 { "s" } else { "u" },
+        mms,
+        cr,
+        gen_pause(r),
+        *r.pick(&[0u64, 0, 1, 3, 10]),
+        ops.join(" ; ")
+    )
+}
+
+pub fn run_model(seed: u64, n: u64, thorough: bool, corpus: &[String], dir: &str) {
+    crate::codec::quiet_panics();
+    let mut out = Outputs::new(dir);
+    let mut r = Rng::new(seed);
+    let mut lines: Vec<String> = Vec::new();
+    for l in corpus {
+        if let Some(s) = l.strip_prefix("txcm-src ") {
+            out.count("corpus_cases");
+            lines.push(s.to_string());
+        }
+    }
+    for l in KNOWN {
+        if l.starts_with("txc tx") && !l.contains("3072") && !l.contains("768") {
+            lines.push(l.to_string());
+        }
+    }
+    // every drop point of one call between two complete ones, with and without the max-message-size split
+    for mms in ["-", "100", "200"] {
+        for sb in ["1", "2", "d"] {
+            for k in 1..=(if thorough { 12 } else { 8 }) {
+                for size in [10usize, 300] {
+                    lines.push(format!(
+                        "txc tx mfs=1024 cb=d sb={} pipe=512 ssm=u mms={} cr=up:3 pause=- sd=0 | 10:inf ; {}:{} ; 100:inf",
+                        sb, mms, size, k
+                    ));
+                }
+            }
+        }
+    }
+    out.add("enumerated_cases", lines.len() as u64);
+    for _ in 0..n {
+        lines.push(gen_txm(&mut r, thorough));
+    }
+    for line in lines {
+        let l2 = line.clone();
+        let t = match std::panic::catch_unwind(move || run_case(&l2)) {
+            Ok(t) => t,
+            Err(_) => "HARNESS-PANIC".to_string(),
+        };
+        match abstract_tx(&line, &t) {
+            Some((case, observed)) => {
+                let hw: Vec<&str> = line.split('|').next().unwrap_or("").split_whitespace().collect();
+                out.count(&format!("mms={}", field(&hw, "mms")));
+                out.count(&format!("cr={}", field(&hw, "cr").split(':').next().unwrap_or("?")));
+                let cancelled = case.matches(":x").count();
+                out.add("calls_not_completed", cancelled as u64);
+                out.add("transfers_seen", observed.split(',').filter(|x| !x.is_empty()).count() as u64);
+                if observed.contains(".m1.") {
+                    out.count("with_multi_transfer_delivery");
+                }
+                if cancelled > 0 && observed.matches(".m0.").count() >= 2 {
+                    out.nontrivial(&case);
+                }
+                out.case(&case, &observed);
+            }
+            None => out.count("outside_model"),
+        }
+    }
+    out.finish(dir);
+}
